@@ -389,6 +389,8 @@ func (in *instr) stmt(s ast.Stmt, elseIf bool) (pre, post []ast.Stmt) {
 	}
 	// channel operations -> scheduling points
 	pre = append(pre, in.chanPoints(s, reads)...)
+	// happens-before edges through channels (conservative: acquire + release on the channel's clock)
+	post = append(post, in.chanSyncs(s)...)
 	// copy / append / range over slices -> element-level accesses
 	pre = append(pre, in.sliceOps(s, reads, defined)...)
 	seen := map[string]bool{}
@@ -637,6 +639,59 @@ func (in *instr) chanPoints(s ast.Stmt, reads []ast.Expr) []ast.Stmt {
 		})
 	}
 	return out
+}
+
+// chanSyncs adds vsched.ChanSync(ch) after plain send / receive statements and at the beginning
+// of every communication clause of a select.
+func (in *instr) chanSyncs(s ast.Stmt) []ast.Stmt {
+	mk := func(ch ast.Expr) ast.Stmt {
+		if !in.pure(ch, nil) {
+			return nil
+		}
+		ex, err := parser.ParseExpr(fmt.Sprintf("vsched.ChanSync(%s)", exprString(in.fset, ch)))
+		if err != nil {
+			fatal(err)
+		}
+		in.needVS = true
+		return &ast.ExprStmt{X: ex}
+	}
+	chanOf := func(st ast.Stmt) ast.Expr {
+		switch c := st.(type) {
+		case *ast.SendStmt:
+			return c.Chan
+		case *ast.ExprStmt:
+			if u, ok := c.X.(*ast.UnaryExpr); ok && u.Op == token.ARROW {
+				return u.X
+			}
+		case *ast.AssignStmt:
+			if len(c.Rhs) == 1 {
+				if u, ok := c.Rhs[0].(*ast.UnaryExpr); ok && u.Op == token.ARROW {
+					return u.X
+				}
+			}
+		}
+		return nil
+	}
+	if sel, ok := s.(*ast.SelectStmt); ok {
+		for _, c := range sel.Body.List {
+			cc := c.(*ast.CommClause)
+			if cc.Comm == nil {
+				continue
+			}
+			if ch := chanOf(cc.Comm); ch != nil {
+				if st := mk(ch); st != nil {
+					cc.Body = append([]ast.Stmt{st}, cc.Body...)
+				}
+			}
+		}
+		return nil
+	}
+	if ch := chanOf(s); ch != nil {
+		if st := mk(ch); st != nil {
+			return []ast.Stmt{st}
+		}
+	}
+	return nil
 }
 
 // sliceOps observes the builtins copy and append and range loops over slices.
